@@ -376,8 +376,10 @@ def rule_store(R):
         good = False
         if isinstance(t, tuple) and t[0] == "bin" and t[1].startswith("Add"):
             a, b2 = t[2], t[3]
-            names2 = [chain(a)[1][-1:], chain(b2)[1][-1:]]
-            good = (is_count(a) or is_count(b2)) and ["written"] in names2
+            def is_before(y):
+                alts_ = phi_alts(peel(y))
+                return bool(alts_) and all(chain(z)[1][-1:] == ["written"] for z in alts_)
+            good = (is_count(a) and is_before(b2)) or (is_count(b2) and is_before(a))
         okp = okp and good
     okp = okp and reached == set(s_.fn_name for s_ in setters)
     R.ob("store/step-accumulates", okp,
